@@ -252,3 +252,7 @@ def run(repo: Repo, rep: Report, tier: str) -> None:
                   f"only {sorted(rp_classes)} are re-pointed: `Bundle c = b * 3; Bundle d = b * 3;` leaves d on the eliminated node — no label, no anchor", rp.loc())
         rep.check(cname in al_classes, "C20-R8", f"the alias map records {cname} names", "covered" if cname in al_classes else
                   f"only {sorted(al_classes)} enter the alias map: a second name of a {cname} producer never becomes an output alias and gets no anchor", an8.loc(alias_loops[0]))
+
+    # ---------------- R9 ---------------------------------------------------------------
+    _borrow20(repo, rep, "C04", "C04-R2", "C20-R9", "a named read declared after the write of a folded cell is wired to the combinator that now holds the cell: the feedback rewrite records "
+              "the surviving node for later reads on every path", select=lambda o: "output_node_id" in o.construct or "handle_read" in o.detail, floor=1)
